@@ -117,8 +117,8 @@ type Sim struct {
 	pools       []*poolState
 	objKeys     []uintptr
 	objKeep     []unsafe.Pointer
-	Procs       int  // what runtime.GOMAXPROCS(0) and runtime.NumCPU() report to the library in this run
-	WeakObjIDs  bool // object numbers do not keep objects alive (C10: a caller may drop a header; numbers may then repeat, they are only labels there)
+	Procs       int // what runtime.GOMAXPROCS(0) and runtime.NumCPU() report to the library in this run
+	objUsed     int
 	objVals     []int32
 	objCount    int
 	realGCs     int
@@ -283,8 +283,7 @@ func (s *Sim) ObjID(p unsafe.Pointer) int {
 	}
 	key := uintptr(p)
 	mask := uintptr(len(s.objKeys) - 1)
-	h := (key >> 3) * 0x9e3779b97f4a7c15
-	i := (h >> 17) & mask
+	i := ((key >> 3) * 0x9e3779b97f4a7c15 >> 17) & mask
 	for s.objKeys[i] != 0 {
 		if s.objKeys[i] == key {
 			return int(s.objVals[i])
@@ -295,38 +294,64 @@ func (s *Sim) ObjID(p unsafe.Pointer) int {
 	s.objCount++
 	s.objKeys[i] = key
 	s.objVals[i] = int32(id)
-	if !s.WeakObjIDs {
-		// keep the object alive, so that its address is never reused for
-		// another object and numbers stay unique
-		n := len(s.objKeep)
-		if n == cap(s.objKeep) {
-			bigger := make([]unsafe.Pointer, n, 2*n+64)
-			for k := 0; k < n; k++ {
-				bigger[k] = s.objKeep[k]
-			}
-			s.objKeep = bigger
+	s.objUsed++
+	// keep the object alive, so that its address is never reused for another
+	// object while it has a number (ForgetObj lets go of it)
+	if id >= len(s.objKeep) {
+		bigger := make([]unsafe.Pointer, 2*id+64)
+		for k := 0; k < len(s.objKeep); k++ {
+			bigger[k] = s.objKeep[k]
 		}
-		s.objKeep = s.objKeep[:n+1]
-		s.objKeep[n] = p
+		s.objKeep = bigger
 	}
-	if 2*s.objCount > len(s.objKeys) {
+	s.objKeep[id] = p
+	if 2*s.objUsed > len(s.objKeys) {
 		oldK, oldV := s.objKeys, s.objVals
 		s.objKeys = make([]uintptr, 2*len(oldK))
 		s.objVals = make([]int32, 2*len(oldK))
+		s.objUsed = 0
 		mask = uintptr(len(s.objKeys) - 1)
 		for k := 0; k < len(oldK); k++ {
-			if oldK[k] == 0 {
+			if oldK[k] == 0 || oldK[k] == objTombstone {
 				continue
 			}
-			j := (((oldK[k]) >> 3) * 0x9e3779b97f4a7c15 >> 17) & mask
+			j := ((oldK[k] >> 3) * 0x9e3779b97f4a7c15 >> 17) & mask
 			for s.objKeys[j] != 0 {
 				j = (j + 1) & mask
 			}
 			s.objKeys[j] = oldK[k]
 			s.objVals[j] = oldV[k]
+			s.objUsed++
 		}
 	}
 	return id
+}
+
+const objTombstone = ^uintptr(0)
+
+// ForgetObj drops the number of an object and the reference that kept it
+// alive: the harness calls it when the simulated caller lets go of a buffer
+// header for good, so that the header can become garbage as it would in a
+// real program (a later object at the same address gets a new number).
+//
+//go:norace
+func (s *Sim) ForgetObj(p unsafe.Pointer) {
+	if len(s.objKeys) == 0 {
+		return
+	}
+	key := uintptr(p)
+	mask := uintptr(len(s.objKeys) - 1)
+	i := ((key >> 3) * 0x9e3779b97f4a7c15 >> 17) & mask
+	for s.objKeys[i] != 0 {
+		if s.objKeys[i] == key {
+			if id := int(s.objVals[i]); id < len(s.objKeep) {
+				s.objKeep[id] = nil
+			}
+			s.objKeys[i] = objTombstone
+			return
+		}
+		i = (i + 1) & mask
+	}
 }
 
 // Go registers a task. Tasks start parked; Run releases them one at a time.
